@@ -14,6 +14,17 @@ v8/v9/v10, both state backends) verified by refimpl against the block's global s
 (true / omit-left / omit-mid / alter-value / add-absent / empty / whole-trie) on both VerifyRangeProof,
 with the left boundary `first` a present key, an absent model key, or an absent key that leaves the trie INSIDE an
 edge (root / internal / leaf edge, on its left or right side: a padding bit of the embedding flipped).
+Range proofs, mechanism level (spec/trie/RangeProof.tla): trie2's VerifyRangeProof transcribed with the cached node
+hashes it relies on (proofToPath linking the proof-set objects, unsetInternal / unset marking every visited node
+dirty, copy-on-write insert, hasher.hash returning a cached hash) - TLC exhaustive over every key set x `first` x
+claim shape (every subset of the range withheld, value altered, key added inside / below / beyond, empty, whole
+trie) x PROVENANCE of the proof nodes (in-memory nodes carrying nodeFlag.Hash | nodes without cache) x single
+tamperings of a proof node; the verifier as it is against the contract with the known deviations left open, the
+repaired design against the full contract, and "a visited node is not marked dirty" as expected violation.
+Binding: Sweep steps (one range, EVERY claim shape, each verified with the proof nodes taken directly from
+GetRangeProof of a hashed trie, of a never hashed trie, of the database-loaded trie, and re-decoded from their
+encoding) and RTamper steps (one proof node dropped / altered under its old key / its new hash) on the real
+verifiers; verdict = the contract's, and for trie2 additionally the transcription's.
 """
 import json
 import vlib
@@ -40,13 +51,23 @@ def run(ctx):
         "EmptyTrieVerifies": known_status(ctx, "membership-proof:empty-trie-rejected:trie2") is None,
         "CheckValueDepth": known_status(ctx, "membership-proof:retyped-child:trie2") is None,
         "LeftEdgeChecked": known_status(ctx, "range-proof:left-edge-omission:trie2") is None,
+        # RangeProof.tla (transcription of trie2's VerifyRangeProof): the boundary leaf left in place, proof-set
+        # objects shared between aliased positions, nodes never compared with the key they are stored under
+        "UnsetBoundaryLeaves": known_status(ctx, "range-proof:left-edge-omission:trie2") is None,
+        "CopyOnResolve": known_status(ctx, "range-proof:left-edge-omission:trie2:aliased-siblings") is None,
+        "RehashResolved": known_status(ctx, "range-proof-trie2:unsound-tampered:keep:single:c:=junk:alter-value") is None,
     }
     ctx.coverage["model_switches"] = {k: ("TRUE" if v else "FALSE") for k, v in sw.items()}
-    with open(vlib.VERIF + "/spec/trie/Proof_sim.cfg") as f:
-        simcfg = f.read()
-    for k, v in sw.items():
-        for old in ("TRUE", "FALSE"):
-            simcfg = simcfg.replace("%s = %s" % (k, old), "%s = %s" % (k, "TRUE" if v else "FALSE"))
+
+    def with_switches(name):
+        with open(vlib.VERIF + "/spec/trie/" + name) as f:
+            text = f.read()
+        for k, v in sw.items():
+            for old in ("TRUE", "FALSE"):
+                text = text.replace("%s = %s" % (k, old), "%s = %s" % (k, "TRUE" if v else "FALSE"))
+        return text
+    simcfg = with_switches("Proof_sim.cfg")
+    sweepcfg = with_switches("Proof_sweep.cfg")
 
     nruns = 10 if thorough else 2
     per_run = 40 if thorough else 20
@@ -54,8 +75,22 @@ def run(ctx):
     for i in range(nruns):
         behaviours += safe_sim(ctx, guards, "trie", "ProofMBT.tla", "sim.cfg", depth=41 * per_run,
                                seed=ctx.seed * 1000 + i, timeout=900, files={"sim.cfg": simcfg})
+    # range-proof sweeps (every claim shape over one range x every provenance of the proof nodes) and tampered range
+    # proofs: simulation runs of their own (ProofMBT.tla SweepOnly)
+    nsweep = 0
+    for i in range(6 if thorough else 1):
+        sb = safe_sim(ctx, guards, "trie", "ProofMBT.tla", "sweep.cfg", depth=27 * (40 if thorough else 22),
+                      seed=ctx.seed * 1000 + 300 + i, timeout=900, files={"sweep.cfg": sweepcfg})
+        nsweep += len(sb)
+        behaviours += sb
     if behaviours:
         res = safe_engine(ctx, binary, "TestProofReplay", {"h": 4, "maxv": 3, "behaviours": behaviours}, "trie", guards)
+        ctx.coverage["behaviours_range_sweeps"] = nsweep
+        st = res.get("stats", {})
+        guards.require(st.get("proof_sweep-verifications", 0) >= 500 or ctx.violations,
+                       "range-proof sweeps executed only %s verifications" % st.get("proof_sweep-verifications"))
+        ntam = sum(v for k, v in st.items() if k.startswith("proof_rtamper-case-"))
+        guards.require(ntam >= 30 or ctx.violations, "only %s tampered range proofs were verified" % ntam)
         ctx.coverage["behaviours_proof"] = len(behaviours)
         ctx.coverage["queries_replayed"] = res.get("steps", 0)
         guards.require(res.get("steps", 0) >= 100 or ctx.violations, "proof replay executed only %s queries" % res.get("steps"))
@@ -101,12 +136,44 @@ def run(ctx):
                                   expect_violation=True, label="Proof.tla %s=FALSE" % name, timeout=600)
                 if r["violated"] is None:
                     raise vlib.Broken("switch %s does not matter in Proof.tla" % name)
+        # (iii) range proofs: trie2's VerifyRangeProof transcribed with its cached-hash mechanism (RangeProof.tla) -
+        # the verifier as it is against the contract with the known deviations left open, and the repaired design
+        # against the full contract, every claim shape x both provenances of the proof nodes; tampered proof nodes
+        ctx.tlc_check("trie", "RangeProof.tla", "Range_thorough.cfg" if thorough else "Range_quick.cfg", timeout=3000,
+                      label="RangeProof.tla/as-it-is")
+        ctx.tlc_check("trie", "RangeProof.tla", "Range_repaired_thorough.cfg" if thorough else "Range_repaired_quick.cfg", timeout=3000,
+                      label="RangeProof.tla/repaired")
+        ctx.tlc_check("trie", "RangeProof.tla", "Range_tamper_thorough.cfg" if thorough else "Range_tamper_quick.cfg", timeout=3000,
+                      label="RangeProof.tla/repaired-tampered")
+        # the mechanism can fail: a verifier that does not mark EVERY node it visits while cutting the range dirty
+        # trusts a cached hash of a node whose subtree it has cut (expected violations)
+        with open(vlib.VERIF + "/spec/trie/Range_quick.cfg") as f:
+            rbase = f.read()
+        full = 'DirtyOnUnset = {"above", "fork", "below"}'
+        for drop in (("above", "fork", "below") if thorough else ("above",)):
+            rest = ", ".join('"%s"' % x for x in ("above", "fork", "below") if x != drop)
+            r = ctx.tlc_check("trie", "RangeProof.tla", "dirty.cfg", files={"dirty.cfg": rbase.replace(full, "DirtyOnUnset = {%s}" % rest)},
+                              expect_violation=True, label="RangeProof.tla unset does not dirty '%s'" % drop, timeout=900)
+            if r["violated"] is None:
+                raise vlib.Broken("RangeProof.tla: not marking the nodes '%s' the fork dirty violates nothing" % drop)
+        if thorough:
+            ctx.tlc_check("trie", "RangeProof.tla", "Range_tamper_faithful.cfg", timeout=3000, label="RangeProof.tla/as-it-is-tampered(drop,rekey)")
+            with open(vlib.VERIF + "/spec/trie/Range_tamper_quick.cfg") as f:
+                tbase = f.read()
+            sbase = rbase.replace(" = FALSE", " = TRUE").replace("INVARIANTS RangeContract", "INVARIANTS RangeContractStrict")
+            for name, cfgtext in (("RehashResolved", tbase), ("UnsetBoundaryLeaves", sbase), ("CopyOnResolve", sbase), ("EmptyTrieVerifies", sbase)):
+                r = ctx.tlc_check("trie", "RangeProof.tla", "sw.cfg", files={"sw.cfg": cfgtext.replace(name + " = TRUE", name + " = FALSE")},
+                                  expect_violation=True, label="RangeProof.tla %s=FALSE" % name, timeout=900)
+                if r["violated"] is None:
+                    raise vlib.Broken("switch %s does not matter in RangeProof.tla" % name)
     except vlib.Broken as e:
         guards.failed.append(str(e)[:1500])
 
     ctx.assumptions += [
         "hashes are injective terms in Proof.tla (unforgeable up to collisions); core/crypto is trusted",
-        "range proofs are specified by their contract, not transcribed",
+        "range proofs: core/trie's verifier is specified by its contract only; core/trie2's is also transcribed (RangeProof.tla)",
+        "a proof node altered in place with its cached nodeFlag.Hash kept is not a proof tampering (DESIGN 13.3); HONEST nodes "
+        "that carry a cache (taken directly from Prove / GetRangeProof of a hashed or database-loaded trie) are part of the domain",
         "the RPC handlers are linked against FFI stubs (the VM is never called by starknet_getStorageProof)",
         "every tampered node is rebuilt from its content (no cached nodeFlag.Hash), as a proof received from outside; child retyping models a deserialiser that lets the sender choose the child type",
     ]
@@ -118,7 +185,11 @@ def run(ctx):
         "(key/value sets over 16 model keys, ~35 membership queries and range claims each) replayed at height 251; "
         "non-trivial = every query runs the real Prove and VerifyProof / VerifyRangeProof on a trie with >= 1 binary node "
         "or the empty trie, absent keys at every divergence depth included; range claims (incl. the empty claim) with `first` "
-        "diverging inside the root edge, internal edges and leaf edges, left and right of the edge path; RPC: starknet_getStorageProof through the real "
+        "diverging inside the root edge, internal edges and leaf edges, left and right of the edge path; range sweeps: for one "
+        "(first, last) every subset of the in-range keys withheld, every value altered, a key added inside / below / beyond, the "
+        "empty claim, each x {mem-hashed, mem-unhashed, db, wire} proof nodes (boundary leaves directly under a bottom-level "
+        "binary node and at the end of an edge, absent boundaries, boundaries inside an edge), and single tamperings of a "
+        "range-proof node (drop, alter under the old key / the new hash) in the single-element, empty and general cases; RPC: starknet_getStorageProof through the real "
         "jsonrpc.Server (v8/v9/v10 method tables, both state backends) on chains built from StateMBT.tla behaviours, every "
         "class / contract / storage slot (present and absent) verified on the wire format by refimpl.Verify against the "
         "header's state root")
